@@ -100,6 +100,16 @@ fragment FullType on __Type { kind name description fields(includeDeprecated: tr
 fragment InputValue on __InputValue { name description type { ...TypeRef } defaultValue }
 fragment TypeRef on __Type { kind name ofType { kind name ofType { kind name ofType { kind name ofType { kind name ofType { kind name ofType { kind name ofType { kind name } } } } } } } }`
 
+// the canonical query with both includeDeprecated flags given by a variable, and the flag asked again
+// wherever a type is reached through an input value (arguments, input fields, directive arguments)
+const variableIntrospection = `query Deep($all: Boolean!) { __schema { types { kind name
+ fields(includeDeprecated: $all) { name isDeprecated args { name type { ...Inner } } type { ...Inner } }
+ inputFields { name type { ...Inner } } enumValues(includeDeprecated: $all) { name isDeprecated } }
+ directives { name many: isRepeatable isRepeatable args { name type { ...Inner } } } } }
+fragment Inner on __Type { kind name enumValues(includeDeprecated: $all) { name } fields(includeDeprecated: $all) { name }
+ ofType { kind name enumValues(includeDeprecated: $all) { name } ofType { kind name enumValues(includeDeprecated: $all) { name }
+ ofType { kind name enumValues(includeDeprecated: $all) { name } } } } }`
+
 type iGen struct {
 	r      *rand.Rand
 	names  []string // type names of the merged schema
@@ -463,6 +473,9 @@ func runC14(cfg *runCfg) error {
 			case qi == 0 && i%4 == 0:
 				cs.Query, cs.Vars = fullIntrospection, map[string]interface{}{}
 				cs.Tags = []string{"canonical"}
+			case qi == 0 && i%4 == 2:
+				cs.Query, cs.Vars = variableIntrospection, map[string]interface{}{"all": i%8 == 2}
+				cs.Tags = []string{"canonical-with-variables"}
 			default:
 				cs.Query = g.query()
 				cs.Vars = g.vars
